@@ -3,6 +3,8 @@
 //! RNG words), a runner for the real sweep methods on `FastOps`, and word-threshold bisection.
 #![allow(dead_code)]
 
+pub mod samplers;
+
 use qmc::sse::fast_ops::{FastOp, FastOps};
 use qmc::sse::qmc_traits::*;
 use rand::{Error, RngCore};
